@@ -4,6 +4,7 @@ from typing import Awaitable, Callable, Dict, List, Optional, Tuple, Type, Union
 
 import h2
 import h2.connection
+import h2.errors
 import h2.events
 import h2.exceptions
 import priority
@@ -57,6 +58,12 @@ class StreamBuffer:
     @property
     def complete(self) -> bool:
         return self._complete and len(self.buffer) == 0
+
+    @property
+    def completing(self) -> bool:
+        # The end of the data has been signalled, it may not all have
+        # been sent yet.
+        return self._complete
 
     async def push(self, data: bytes) -> None:
         if self._complete:
@@ -220,6 +227,16 @@ class H2Protocol:
                 self.connection.send_headers(event.stream_id, event.headers)
                 await self._flush()
             elif isinstance(event, StreamClosed):
+                buffer = self.stream_buffers.get(event.stream_id)
+                if (
+                    buffer is not None
+                    and not buffer.completing
+                    and isinstance(self.streams.get(event.stream_id), HTTPStream)
+                ):
+                    # The app has finished without completing the
+                    # response, reset the stream so the client is not
+                    # left waiting for the rest of it.
+                    await self._reset_stream(event.stream_id)
                 await self._close_stream(event.stream_id)
                 idle = len(self.streams) == 0 or all(
                     stream.idle for stream in self.streams.values()
@@ -393,6 +410,19 @@ class H2Protocol:
             await self._create_stream(event)
             await self.streams[event.stream_id].handle(EndBody(stream_id=event.stream_id))
             self.keep_alive_requests += 1
+
+    async def _reset_stream(self, stream_id: int) -> None:
+        try:
+            self.connection.reset_stream(stream_id, h2.errors.ErrorCodes.INTERNAL_ERROR)
+            await self._flush()
+        except h2.exceptions.ProtocolError:
+            pass  # Already closed or reset by the client
+        await self.stream_buffers[stream_id].close()
+        del self.stream_buffers[stream_id]
+        try:
+            self.priority.remove_stream(stream_id)
+        except priority.MissingStreamError:
+            pass
 
     async def _close_stream(self, stream_id: int) -> None:
         if stream_id in self.streams:
